@@ -985,7 +985,7 @@ func opcodeSplit(op *ParsedOpcode, t *thread) error {
 		return err
 	}
 
-	if n.Int32() > int32(len(c)) {
+	if n.GreaterThanInt(int64(len(c))) {
 		return errs.NewError(errs.ErrNumberTooBig, "n is larger than length of array")
 	}
 	if n.LessThanInt(0) {
@@ -1439,7 +1439,7 @@ func opcodeLShift(op *ParsedOpcode, t *thread) error {
 	if err != nil {
 		return err
 	}
-	n := num.Int()
+	n := int(num.Int64())
 
 	if n < 0 {
 		return errs.NewError(errs.ErrNumberTooSmall, "n less than 0")
@@ -1459,7 +1459,7 @@ func opcodeRShift(op *ParsedOpcode, t *thread) error {
 	if err != nil {
 		return err
 	}
-	n := num.Int()
+	n := int(num.Int64())
 
 	if n < 0 {
 		return errs.NewError(errs.ErrNumberTooSmall, "n less than 0")
@@ -2084,7 +2084,7 @@ func opcodeCheckMultiSig(op *ParsedOpcode, t *thread) error {
 		return err
 	}
 
-	numPubKeys := numKeys.Int()
+	numPubKeys := int(numKeys.Int64())
 	if numPubKeys < 0 {
 		return errs.NewError(errs.ErrInvalidPubKeyCount, "number of pubkeys %d is negative", numPubKeys)
 	}
@@ -2114,7 +2114,7 @@ func opcodeCheckMultiSig(op *ParsedOpcode, t *thread) error {
 		return err
 	}
 
-	numSignatures := numSigs.Int()
+	numSignatures := int(numSigs.Int64())
 	if numSignatures < 0 {
 		return errs.NewError(errs.ErrInvalidSignatureCount, "number of signatures %d is negative", numSignatures)
 	}
